@@ -214,12 +214,12 @@ def derivationComplex (p : PInput) (derivedIdx : Nat) (deps : List (List Dep)) (
         | none => st
         | some vs =>
           match x with
-          | .before ready => if ready ≤ n then (none, st.2) else st
+          | .before ready => if ready ≤ n / (if s = 0 then 1 else s) then (none, st.2) else st
           | .var v =>
             match trialSizeOf p v with
             | none => (none, true)
             | some sz =>
-              let nx : Int := (v : Int) + (((t : Int) + delta) * (f.stride : Int) * (sz : Int) + 1)
+              let nx : Int := (v : Int) + (((t : Int) * (f.stride : Int) + delta) * (sz : Int) + 1)
               if nx ≤ 0 then (none, st.2) else (some (vs ++ [lit nx]), st.2)) (some [], false)
       match r.1 with
       | some vs => (a.1 ++ [Formula.and vs], a.2 || r.2)
